@@ -32,6 +32,9 @@ Clause ids (`what`)
                                       `edit`), then written again: the document denotes the chart as it is NOW
   <origin>.read_after_write.<aspect>  aspect: accepts, hits, holds, keysounds, timing_points, svs, metadata
   write_after_read.<aspect>[<feature>]
+  every family that compares two charts also has the aspects timing_points_in_force_at_equal_times and svs_in_force_at_equal_times
+  (write: same_..._in_force_at_equal_times): of several records of one kind at ONE StartTime the one listed last is the one in force;
+  both sides must end such a group with the same value (LONG lists with ties: gen_long_ties / long_ties_doc)
 Converted charts are clauses of their own, so the native clauses are exercised independently.
 
 Dimensions that do NOT enter the clause id (they are fields of the case): `via` - the entry point the text goes
@@ -305,6 +308,31 @@ def _veq(a, b):
         return a == b
 
 
+def in_force_at_equal_times(W, G, tol, name):
+    """W, G: [(time, value)] in row / document order.  For every time at which W lists several records with different values: the records G
+    lists at that time (moved by less than tol) end with the same value as W's.  Groups that are not clearly apart from W's other times
+    (2 * tol), or whose size differs in G, are left to the plain clause.  -> detail | None"""
+    by = {}
+    for t, v in W:
+        if isinstance(t, (int, float)) and math.isfinite(t):
+            by.setdefault(float(t), []).append(v)
+    times = sorted(by)
+    n_bad, first = 0, None
+    for i, t in enumerate(times):
+        vs = by[t]
+        if len(vs) < 2 or vs[-1] is None or all(_veq(v, vs[-1]) for v in vs):
+            continue
+        if (i and t - times[i - 1] <= 2 * tol) or (i + 1 < len(times) and times[i + 1] - t <= 2 * tol):
+            continue
+        g = [v for tt, v in G if isinstance(tt, (int, float)) and abs(tt - t) < tol]
+        if len(g) != len(vs) or g[-1] is None:
+            continue
+        if not _veq(vs[-1], g[-1]):
+            n_bad += 1
+            first = first or f"at time {t} the chart lists {name} values {vs} in that order (in force: {vs[-1]}), the other side lists {g} (in force: {g[-1]})"
+    return f"{first}; {n_bad} time(s) affected" if n_bad else None
+
+
 def compare_charts(want, got, tol):
     """[(aspect, detail)] where the two denotations differ.  Times may differ by less than `tol` ms
     (tol = 1 for anything that went through write; 1e-6 for read)."""
@@ -334,6 +362,13 @@ def compare_charts(want, got, tol):
     ok, d = _match([(0, t, b) for t, b in want["svs"]], [(0, t, b) for t, b in got["svs"]], lambda a, b: lt(a[1], b[1]) and _veq(a[2], b[2]))
     if not ok:
         out.append(("svs", "(time, multiplier): " + d))
+    # records of one kind that share a StartTime: the one listed LAST is the one in force from that time on, so a document / chart that lists
+    # the same records but ends the group with another value denotes another timeline (asserted only where the plain clause found the same records)
+    for aspect, key, name in (("timing_points", "bpms", "bpm"), ("svs", "svs", "multiplier")):
+        if not any(a == aspect for a, _ in out):
+            d = in_force_at_equal_times(want[key], got[key], tol, name)
+            if d:
+                out.append((f"{aspect}_in_force_at_equal_times", d))
     bad = []
     for k, v in want["meta"].items():
         if k not in ATTR:
@@ -938,7 +973,44 @@ def _gen_objects(rng, keys, n_hits, n_holds, with_ks, ints=False):
     return hits, holds
 
 
-def gen_chart_case(rng, origin):
+LONG_N = [20, 33, 48, 64, 90, 120]
+
+
+def gen_long_ties(rng, kind, ints=False, n=None):
+    """LONG list with ties: 20..120 [time, value] records of one kind (kind: svs | bpms) on a time raster, 1..4 records per time with pairwise
+    different values (the 'teleport' idiom: several scroll velocities at one time, the last one listed is the one in force); rows in time
+    order (3 of 5), in descending time order with the order inside a time kept, or shuffled."""
+    n = n or rng.choice(LONG_N)
+    if kind == "svs":
+        vals = [1, 2, -1, 0, 10, 3, 5] if ints else [1.0, 0.5, 2.0, 1.25, -1.0, 10.0, 0.0, 100.0, 0.01]
+    else:
+        vals = [120, 60, 200, 90, 150] if ints else [120.0, 177.5, 60.0, 333.333, 90.5, 240.0]
+    t0, step = rng.choice([0, 1000, -2000]), rng.choice([250, 500, 125] if ints else [250, 500, 187.5, 333.5])
+    recs, i = [], 0
+    while len(recs) < n:
+        recs += [[t0 + step * i, v] for v in rng.sample(vals, rng.choice([1, 2, 2, 3, 3, 4]))]
+        i += 1
+    order = rng.choice(["time", "time", "time", "descending", "shuffled"])
+    if order == "descending":
+        recs.sort(key=lambda r: -r[0])
+    elif order == "shuffled":
+        rng.shuffle(recs)
+    return recs
+
+
+def long_ties_doc(rng, n=None):
+    """a plain .qua text (own emitter) whose TimingPoints and / or SliderVelocities are LONG lists with ties -> (text, dims)"""
+    which = rng.choice(["svs", "svs", "bpms", "both"])
+    ints = rng.random() < 0.3
+    bpms = gen_long_ties(rng, "bpms", ints, n) if which in ("bpms", "both") else [[0, 120.0]]
+    svs = gen_long_ties(rng, "svs", ints, n) if which in ("svs", "both") else [[500, 1.5]]
+    text = "AudioFile: audio.mp3\nTitle: long lists with ties\nMode: Keys4\nTimingPoints:\n" + "".join(f"- StartTime: {t!r}\n  Bpm: {b!r}\n" for t, b in bpms)
+    text += "SliderVelocities:\n" + "".join(f"- StartTime: {t!r}\n  Multiplier: {x!r}\n" for t, x in svs)
+    text += "HitObjects:\n- StartTime: 1000\n  Lane: 1\n  KeySounds: []\n- StartTime: 1500\n  Lane: 4\n  EndTime: 2250\n  KeySounds: []\n"
+    return text, ["long_ties_" + which]
+
+
+def gen_chart_case(rng, origin, long_ties=None, n_long=None):
     """JSON-able description of an in-memory source chart.  origin: lists (native Quaver lists) | osu | sm | bms | o2j."""
     keys = rng.choice([4, 7])
     # (BMSToQua derives the key count from the highest column, so an empty BMS chart cannot be converted at all)
@@ -966,6 +1038,15 @@ def gen_chart_case(rng, origin):
         meta.update(source=rng.choice(pool), description=rng.choice(pool), genre=rng.choice(pool), banner=rng.choice(pool), map_id=rng.choice([-1, 77]), isv=rng.choice([1.0, 2.5]),
                     scratch=rng.random() < 0.5, bpm_sv=rng.random() < 0.5, layers=rng.choice([[], [{"Name": "L: 1", "ColorRgb": "1,2,3"}]]))
     dims = []
+    if long_ties is None:
+        long_ties = origin in ("lists", "osu") and rng.random() < 0.08
+    if long_ties and origin in ("lists", "osu"):
+        # LONG lists with ties (20..120 records, several records per StartTime with different values); converted charts: SVs of an osu! chart
+        which = rng.choice(["svs", "svs", "bpms", "both"]) if origin == "lists" else "svs"
+        if which in ("svs", "both"):
+            svs = gen_long_ties(rng, "svs", ints, n_long)
+        if which in ("bpms", "both"):
+            bpms = gen_long_ties(rng, "bpms", ints, n_long)
     if rng.random() < 0.2:  # (14) every metadata field / key-sound list non-default and different from its siblings
         texts = rng.sample(D_TEXTS, 10)
         meta.update(title=texts[0], artist=texts[1], creator=texts[2], version=texts[3], audio=texts[4], background=texts[5], tags=["t1", "tag:2", "三"], preview=4321)
@@ -983,6 +1064,8 @@ def gen_chart_case(rng, origin):
             how = rng.choice(["first", "first_tied", "last", "last_tied"])
             rng.choice(kinds[k])[0] = {"first": min(allt) - step, "first_tied": min(allt), "last": max(allt) + step, "last_tied": max(allt)}[how]
             dims.append(f"{k}_{how}")
+    if long_ties and origin in ("lists", "osu"):
+        dims.append("long_ties_" + which)
     case = dict(origin=origin, keys=keys, hits=hits, holds=holds, bpms=bpms, svs=svs, meta=meta)
     if dims:
         case["dims"] = dims
@@ -1218,6 +1301,8 @@ def _apply_edit(m, edit, chart):
     from reamber.quaver.lists.notes.QuaHoldList import QuaHoldList
 
     want = dict(hits=list(chart["hits"]), holds=list(chart["holds"]), bpms=list(chart["bpms"]), svs=list(chart["svs"]), meta=dict(chart["meta"]))
+    if edit not in EDITS:
+        raise ValueError(edit)
     try:
         if edit in ("shift_props", "shift_stack"):
             if edit == "shift_props":
@@ -1262,11 +1347,7 @@ def _apply_edit(m, edit, chart):
                                 Mode="Keys4" if chart["meta"].get("Mode") == "Keys7" else "Keys7")
         elif edit == "rate":
             return m.rate(2.0), None
-        else:
-            raise ValueError(edit)
-    except ValueError:
-        raise
-    except Exception as ex:
+    except Exception as ex:  # (also a ValueError out of pandas: the edit step raised, not the writer)
         raise _EditStepError(_exc(ex)) from ex
     return m, want
 
@@ -1416,6 +1497,25 @@ def qua_write_vs_denotation(rep):
     plan = []
     for o in ("qua", "osu", "sm", "bms", "o2j"):
         plan += fixture_cases(o, lim)
+    # LONG lists with ties, a fixed family ahead of the random charts: every length of LONG_N as native item lists and as a document read back
+    # (thorough: x 6), half as many converted from osu!
+    n_ties = 0
+    for rnd in range(rep.n(1, 6)):
+        for j, n_long in enumerate(LONG_N):
+            plan.append(gen_chart_case(rng, "lists", long_ties=True, n_long=n_long))
+            text, dims = long_ties_doc(rng, n_long)
+            c = dict(origin="doc", text=text, via=rng.choice(["str", "str", "lines_splitlines", "file"]), dims=dims)
+            if rng.random() < 0.4:
+                c["post"] = {k: rng.choice(POST_OPS) for k in ("hits", "holds", "bpms", "svs")}
+            if rng.random() < 0.5:
+                c["edit"] = rng.choice(EDITS)
+            plan.append(c)
+            if j % 2 == 0:
+                plan.append(gen_chart_case(rng, "osu", long_ties=True, n_long=n_long))
+            n_ties += 2 + (j % 2 == 0)
+    rep.bound += (f"; LONG lists with ties: {n_ties} charts ahead of the random ones (native item lists, generated documents read back, half as many converted from osu!) + 8% of the random native / osu! charts whose scroll velocities and / or timing points "
+                  f"(osu!: scroll velocities) are lists of {LONG_N} or more records on a time raster with 1..4 records per StartTime of pairwise different values (the 'teleport' idiom), rows in time order / descending / shuffled: "
+                  "the record listed LAST at a time is the one in force - aspects timing_points_in_force_at_equal_times, svs_in_force_at_equal_times of every write / read-after-write clause family")
     for i in range(N):
         for o in ("lists", "doc", "osu", "sm", "bms", "o2j"):
             plan.append(o)
@@ -1424,7 +1524,9 @@ def qua_write_vs_denotation(rep):
     for p in plan:
         if rep.out_of_time(45, 330):
             break
-        if isinstance(p, dict):
+        if isinstance(p, dict) and "file" not in p:
+            case = p  # (a generated case of the fixed families)
+        elif isinstance(p, dict):
             if fx_done.get(p["origin"], 0) >= nfiles:  # quick: the smallest fixture of each format that can be read
                 continue
             case = p
@@ -1534,6 +1636,18 @@ def qua_write_after_read(rep):
         if rep.out_of_time(40, 300):
             break
         case = dict(feature="fixture", file=os.path.relpath(f, REPO))
+        rep.case(case, nontrivial=True)
+        for what, d in run_war_case(case):
+            rep.fail(what, case, d)
+    n_ties = rep.n(6, 36)
+    rep.bound += f"; LONG lists with ties: {n_ties} plain documents whose TimingPoints / SliderVelocities hold {LONG_N} or more records with 1..4 records of different values per StartTime (feature long_ties; the record listed last at a time is the one in force)"
+    for j in range(n_ties):
+        if rep.out_of_time(40, 300):
+            break
+        text, dims = long_ties_doc(rng, LONG_N[j % len(LONG_N)])
+        case = dict(feature="long_ties", text=text, dims=dims)
+        if rng.random() < 0.4:
+            case["wvia"] = rng.choice(WRITE_VIAS[1:])
         rep.case(case, nontrivial=True)
         for what, d in run_war_case(case):
             rep.fail(what, case, d)
